@@ -14,9 +14,10 @@ import io
 from harness import core, histcheck, isoapi
 from harness.props import c01
 
-LEAN_MODULES = ['Pycdlib.Props.C10', 'Pycdlib.Props.Tie']
+LEAN_MODULES = ['Pycdlib.Props.C10', 'Pycdlib.Props.Tie', 'Pycdlib.Props.C10Names']
 THEOREMS = ['Pycdlib.Udf.tag_valid', 'Pycdlib.Udf.fid_spill_is_floor', 'Pycdlib.Udf.fid_spill_invariant', 'Pycdlib.Udf.fid_len_mul4',
-            'Pycdlib.Udf.fid_len_tie', 'Pycdlib.crc_ccitt_tie', 'Pycdlib.crc16_table_spec', 'Pycdlib.crc16Byte_table']
+            'Pycdlib.Udf.fid_len_tie', 'Pycdlib.crc_ccitt_tie', 'Pycdlib.crc16_table_spec', 'Pycdlib.crc16Byte_table',
+            'Pycdlib.UdfNames.identOf_injective', 'Pycdlib.UdfNames.lookup_own_name', 'Pycdlib.UdfNames.old_rule_cross_encoding_collision']
 PARTIAL = {
     'udf_read_master_partial': 'tags, CRC, FID sizes and FID block assignment are proved; the byte layout of the individual descriptors '
     '(PVD/IUVD/PD/LVD/USD/LVID/FSD/File Entry fields) and the tree walk are decided by the independent reader on every generated image',
@@ -26,7 +27,8 @@ ASSUMPTIONS = ['multi-gigabyte files are not generated in the quick tier']
 RULE = c01.RULE + '; UDF forced; plus tag/CRC/FID grids'
 LEVEL_TEXT = ('Lean 4 theorems: every tag computed for any body passes an ECMA-167 reader\'s checks; udf.crc_ccitt (table regenerated '
               'from the source each run) equals the bit-by-bit CRC-16/CCITT for every byte string; FID tag locations equal the block '
-              'of the first byte for every list of FID lengths. Tree, names, symlinks, file bytes and all lengths are decided by the '
+              'of the first byte for every list of FID lengths; a File Identifier determines its name and a lookup finds exactly the entry that '
+              'carries the name (identOf_injective, lookup_own_name). Tree, names, symlinks, file bytes and all lengths are decided by the '
               'independent Lean ECMA-167 reader against the Lean Spec on every generated history.')
 LEVEL_NOTE = 'Trusted: Lean kernel, py2lean for the table and length function, the reader as specification of validity.'
 TECHNIQUE = 'Lean 4 proofs (tag validity, CRC table = bitwise CRC, FID packing) + independent Lean ECMA-167 reader vs Lean Spec'
@@ -55,6 +57,42 @@ def run_codec(ctx):
         if a != b:
             ctx.disagree('S-codec/' + rq.split()[0], '%s: impl=%s model=%s' % (rq[:80], a[:60], b[:60]), {'kind': 'codec', 'request': rq})
     ctx.traces_validated += len(reqs)
+
+
+def run_names(ctx):
+    """correspondence for Model/UdfNames (theorems identOf_injective, lookup_own_name): the identifier a File Identifier
+    Descriptor records for a name (encoding + content) and whether a lookup of another name finds it, on the real
+    UDFFileIdentifierDescriptor / UDFFileEntry.find_file_ident_desc_by_name"""
+    import pycdlib
+    from pycdlib import udf
+    rng = ctx.rng
+    pool = ['ab', 'a', 'AB', 'xy12', 'caf\u00e9', '\u00ff\u00fe', '\u6162', '\u4142', '\u7879\u3132', '\u0100', 'a\u0100', '\U0001f600', 'b\U0001f600', '\u6100', '\u0061\u0062\u0063', '\u6162c']
+    for _ in range(40 if ctx.quick else 400):
+        pool.append(''.join(chr(rng.choice([0x61, 0x62, 0xe9, 0xff, 0x100, 0x6162, 0x6261, 0x4e2d, 0x1f600, 0x10000, 0xffff, 0x20])) for _ in range(rng.randint(1, 4))))
+    pairs = [(a, b) for a in pool[:16] for b in pool[:16]] + [(rng.choice(pool), rng.choice(pool)) for _ in range(200 if ctx.quick else 3000)]
+    iso = pycdlib.PyCdlib()
+    iso.new(udf='2.60')
+    root = iso.udf_root
+    reqs, impl = [], []
+    for stored, query in pairs:
+        fid = udf.UDFFileIdentifierDescriptor()
+        fid.new(False, False, stored.encode('utf-8'), root)
+        units = list(fid.fi) if fid.encoding == 'latin-1' else [int.from_bytes(fid.fi[i:i + 2], 'big') for i in range(0, len(fid.fi), 2)]
+        saved = root.fi_descs
+        root.fi_descs = [saved[0], fid] if saved else [fid]
+        try:
+            found = root.find_file_ident_desc_by_name(query.encode('utf-8')) is fid
+        except Exception:  # noqa
+            found = False
+        root.fi_descs = saved
+        impl.append('%s %s %d' % ('latin1' if fid.encoding == 'latin-1' else 'utf16', '.'.join(map(str, units)), 1 if found else 0))
+        reqs.append('udfident %s %s' % ('.'.join(str(ord(c)) for c in stored), '.'.join(str(ord(c)) for c in query)))
+    iso.close()
+    for (stored, query), rq, a, b in zip(pairs, reqs, impl, ctx.driver.ask(reqs)):
+        ctx.count(key=rq, nontrivial=stored != query, kind='udfident:%s' % a.split()[0])
+        if a != b:
+            ctx.disagree('S-fn/udfident', 'identifier of %r looked up as %r: impl=%s model=%s' % (stored, query, a, b), {'kind': 'udfident', 'request': rq})
+    ctx.traces_validated += len(pairs)
 
 
 def udf_dirs(iso):
@@ -108,6 +146,7 @@ def big_cases(ctx):
 
 
 def run(ctx):
+    run_names(ctx)
     big_cases(ctx)
     run_codec(ctx)
     c01.run(ctx, focus='C10', post=post, n_quick=120, n_thorough=3000, force={'udf': '2.60'})
